@@ -2,10 +2,10 @@ package fovc
 
 import (
 	"fmt"
-	"os"
-	"runtime/debug"
 	"go/ast"
 	"go/types"
+	"os"
+	"runtime/debug"
 	"sort"
 	"strings"
 )
